@@ -116,7 +116,9 @@ func (o *offsetReadSeeker) Seek(offset int64, whence int) (int64, error) {
 			o.off = off
 		}
 	case io.SeekEnd:
-		panic("unsupported whence: SeekEnd")
+		// The end of an io.ReaderAt is not known. Callers probe for it (BlockReader.SkipNext,
+		// WrapV1), so this is an error to return, not a programming error to panic about.
+		return 0, errors.New("unsupported whence: SeekEnd")
 	}
 	return o.Position(), nil
 }
